@@ -22,6 +22,10 @@ import (
 
 type queryPacket struct {
 	preparedStatement *PgPreparedStatement
+	// preparedQueryText is the text of the prepared statement at the time of Execute. The registry blanks
+	// preparedStatement.text when a later Parse replaces the statement, and a pipelining client may send that
+	// Parse before the results of this Execute have arrived.
+	preparedQueryText string
 	bindPacket        *BindPacket
 	executePacket     *ExecutePacket
 	simpleQueryPacket string
@@ -35,7 +39,7 @@ func newQueryPacket(query string) queryPacket {
 }
 
 func newExtendedQueryPacket(preparedStatement *PgPreparedStatement, bindPacket *BindPacket, executePacket *ExecutePacket) queryPacket {
-	return queryPacket{preparedStatement: preparedStatement, bindPacket: bindPacket, executePacket: executePacket}
+	return queryPacket{preparedStatement: preparedStatement, preparedQueryText: preparedStatement.QueryText(), bindPacket: bindPacket, executePacket: executePacket}
 }
 
 func newSyncPointPacket() queryPacket {
@@ -56,6 +60,9 @@ func (queryPacket queryPacket) String() string {
 // GetSQLQuery returns SQL query. If packet is SimpleQuery then returns query, otherwise returns query from the Parse packet
 func (queryPacket queryPacket) GetSQLQuery() string {
 	if queryPacket.executePacket != nil {
+		if queryPacket.preparedQueryText != "" {
+			return queryPacket.preparedQueryText
+		}
 		return queryPacket.preparedStatement.QueryText()
 	}
 	return queryPacket.simpleQueryPacket
